@@ -146,6 +146,10 @@ func checkC11(c *Ctx) {
 	c.Rule("C11-R4", "the collect loop calls the rune and focus parsers unconditionally; the focus parser maps I/O to in/out")
 	c.Rule("C11-R7", "a prefix for which the decoder could only substitute U+FFFD is not consumed as a character while a longer prefix (up to the longest sequence, 4 bytes) has not been tried: multi-byte legacy charsets answer a lone lead byte that way")
 	c.Expect("C11-R7", 1)
+	c.Rule("C11-R8", "the charset registration table pairs every name with the encoding object of the same name (typed text is decoded with the registered object)")
+	c.Expect("C11-R8", 25)
+	c.Rule("C11-R9", "the key matcher's 'partial' answer accumulates over the key table (paste brackets split across reads are still recognised)")
+	c.Expect("C11-R9", 1)
 	c.Rule("C11-R5", "an input chunk queued for the parser goroutine owns its backing array (allocated per chunk)")
 	c.Rule("C11-R6", "raw input bytes are interpreted only by the locale's decoder: no unicode/utf8 function is applied to the undecoded input (the locale may be a legacy charset)")
 	c.Expect("C11-R5", 1)
@@ -167,6 +171,18 @@ func checkC11(c *Ctx) {
 	checkPrefixLoop(c, p, pr, "C11-R1")
 	checkChunkOwnership(c, p, "C11-R5")
 	checkRawInputNotUTF8(c, p, pr, "C11-R6")
+	charsetTableRule(c, p, "C11-R8")
+	for _, pi := range inputParsers(p) {
+		if pi.fn.Name() == "parseFunctionKey" {
+			n0 := len(c.Obls)
+			c02PartialAccumulates(c, p, pi)
+			for i := n0; i < len(c.Obls); i++ {
+				c.Obls[i].Rule = "C11-R9"
+				c.ruleCounts["C02-R11"]--
+				c.ruleCounts["C11-R9"]++
+			}
+		}
+	}
 	checkSubstitutedPrefix(c, p, pr, "C11-R7")
 	// R2: the consumption loop counts down from nSrc
 	for _, pl := range findPrefixLoops(pr) {
